@@ -119,6 +119,25 @@ def cases(tier, seed):
 			seqs = [_rand_seq(rnd, rnd.randrange(5, 80), b'ACGT' if k < 12 else b'AT') for _ in range(rnd.randrange(1, 3))]
 			steps.append({'seqs': seqs, 'type': rnd.choice(['bytes', 'str']), 'fail': rnd.random() < .4})
 		yield {'kind': 'history', 'k': k, 'prefix': prefix, 'steps': steps}
+	# large k: every index-dtype boundary (k = 4/5, 8/9, 16/17, 31/32) with k-mers spread over the WHOLE index range in one
+	# sequence (first base A, C, G and T: indices below and above 2^(bits-1)), several per sequence and across sequences
+	for k in (4, 5, 8, 9, 15, 16, 17, 24, 31, 32):
+		for rep in range(3 if tier == 'quick' else 30):
+			L = rnd.choice([1, 2, 5])
+			prefix = _rand_seq(rnd, L, b'ACGT')
+			seqs = []
+			for _ in range(rnd.choice([1, 1, 2])):
+				s = []
+				firsts = list(b'ACGT')
+				rnd.shuffle(firsts)
+				for f in firsts[:rnd.choice([2, 3, 4])]:
+					kmer = [f] + _rand_seq(rnd, k - 1, b'ACGT')
+					unit = prefix + kmer
+					if rnd.random() < .4:
+						unit = [COMP[b] for b in reversed(unit)]
+					s += _rand_seq(rnd, rnd.randrange(0, 4), b'N') + unit
+				seqs.append(s)
+			yield {'k': k, 'prefix': prefix, 'seqs': seqs, 'type': rnd.choice(['bytes', 'str', 'Seq']), 'acc': rnd.choice(['default', 'set'] if k > 12 else ['default', 'set', 'array']), 'single': False}
 	alphas = [b'ACGT', b'ACGTN', b'ACGTacgtNn-', b'AT', b'ATat', bytes(range(256))]
 	N = 1500 if tier == 'quick' else 40000
 	for i in range(N):
@@ -155,5 +174,5 @@ def bounded(tier, seed):
 			if len(failures) >= 5:
 				break
 	return {'tool': 'real calc_signature against a brute-force two-strand enumeration',
-	        'bound': 'all ACGT sequences of length <= 5 (thorough 6) for 7 (k, prefix) pairs; random sequences < 200 bytes, k <= 13, 4 input types, 3 accumulator choices',
+	        'bound': 'all ACGT sequences of length <= 5 (thorough 6) for 7 (k, prefix) pairs; random sequences < 200 bytes, k <= 13; planted k-mers over the whole index range for k = 4..32 at every index-dtype boundary; 4 input types, 3 accumulator choices',
 	        'cases': n, 'failures': failures, 'samples': sample}
